@@ -176,8 +176,8 @@ NAMES = ['h_rename_nosamp', 'h_rename', 'h_split', 'h_flatten', 'h_detect_c', 'h
          '2d_dict', '2d_amp', '2d_list', '2d_none', '2d_none_list', '3d', '3d_1', '3d01', 'edges', 'edges_t', 'limit',
          'limit_t', 'epoch', 'epoch_t', 'drop', 'plt_summary', 'plt_summary_t', 'plt_summary_a', 'plt_param', 'plt_cpdf',
          'plt_cparr', 'plt_hist', 'plt_cat']
-CORE = ['h_rename_nosamp', 'burstfeat_c_off', 'cf_fek_empty', 'cf_fail_t', 'cf_default', 'cf_amp_nothr_m8', 'edges_noburst', 'cf_buf_A', 'cf_buf_B', 'cf_cycles', 'cf_amp_m', 'cf_amp_t', 'cf_trough', 'burstfeat_a', '2d_amp', '2d_none_list', '3d01', 'edges', 'limit_t',
-        'epoch', 'plt_summary']
+CORE = ['h_rename_nosamp', 'burstfeat_c_off', 'cf_fek_empty', 'cf_fail_t', 'cf_default', 'cf_amp_nothr_m8', 'edges_noburst', 'cf_buf_A', 'cf_buf_B',
+        'cf_amp_m', '2d_none_list', 'limit_t']
 REF = {}          # call name -> fingerprint hash of its fresh-state result (filled before the workers are forked)
 
 
